@@ -21,10 +21,14 @@ def apply_scenarios(rng, n):
             if rng.random() < .5:
                 pool['start_method'] = 'fork'
             else:
-                # a thread cannot be interrupted: the task is reported as timed out and its late result must be ignored
+                # a thread cannot be interrupted: the task is reported as timed out and its late result must be ignored — also when
+                # the late result is a FAILURE (a task that was going to raise is slow as well)
                 for o in ops:
                     for k in list(o['dur']['map']):
                         o['dur']['map'][k] = rng.choice([0.3, 0.5])
+                    for i in (o.get('fail') or {}).get('at', []):
+                        if o.get('task_timeout') and rng.random() < .6:
+                            o['dur']['map'][str(i)] = rng.choice([0.3, 0.5])
                     o['cb_dur'] = rng.choice([0.5, 1.0])
         for op in ops[1:]:
             op.pop('join_first', None)
@@ -125,6 +129,25 @@ def run(chk):
                   dist=lambda sc, o: {'failures': bool((sc['ops'][0].get('fail') or {}).get('at')), 'timeouts': bool(sc['ops'][0].get('task_timeout')),
                                       'join_first': bool(sc['ops'][0].get('join_first')), 'start': sc['pool']['start_method']})
     aproto_tie(chk, drv, scs, obs)
+    # apply submissions while a lazy map-family call of the same pool is open (ordered or unordered, some of its tasks still queued):
+    # each apply task is called as func(*args) and settles with what it returned or raised
+    ov = []
+    for _ in range(60 if chk.tier == 'quick' else 900):
+        pool = {'n_jobs': rng.choice([1, 2, 3]), 'start_method': rng.choice(['fork', 'threading'])}
+        for k in ('pass_worker_id', 'use_worker_state', 'shared_objects'):
+            if rng.random() < .3:
+                pool[k] = True
+        nn = rng.randint(4, 10)
+        lazy = {'op': rng.choice(['imap', 'imap', 'imap_unordered']), 'n': nn, 'chunk_size': rng.choice([1, 2]), 'elem': rng.choice(['scalar', 'tuple']),
+                'consume': rng.randint(1, 3), 'dur': {'kind': 'hash', 'salt': rng.randint(0, 99), 'unit': 0.02}}
+        ap = gen.gen_apply_op(rng, pool['n_jobs'])
+        ap.pop('task_timeout', None)
+        ap.pop('join_first', None)
+        ap.pop('init', None)
+        ap['dur'] = {'kind': 'map', 'map': {}, 'default': rng.choice([0.0, 0.01])}
+        ov.append({'seed': rng.randint(0, 10 ** 6), 'pool': pool, 'ops': [lazy, ap], 'relax_shape': True})
+    run_scenarios(chk, 'apply submissions while a lazy map-family call is open', ov, {'C09', 'C03'}, nontrivial=lambda sc, o: True,
+                  dist=lambda sc, o: {'lazy': sc['ops'][0]['op'], 'start': sc['pool']['start_method'], 'failures': bool((sc['ops'][1].get('fail') or {}).get('at'))})
 
     def search():
         run_scenarios(chk, 'search', apply_scenarios(random.Random(chk.seed * 23 + 7), 1000), {'C09', 'C03'})
